@@ -826,6 +826,10 @@ class Interp:
                     col_snap[name] = {cn: c for cn, c in tab.cols.items() if cn not in mcols[name]}
                 else:
                     fr.env[name] = self.havoc_value(fr.env[name], name)
+        for oname, flds in (spec.get('modifies_fields') or {}).items():
+            obj = fr.env.get(oname)
+            for fld in flds:
+                obj.fields[fld] = self.havoc_value(obj.fields[fld], fld)
         for gname in spec.get('modifies_globals', ()):
             gl = ctx.ghost.get('globals') or {}
             if gname in gl:
@@ -1100,7 +1104,7 @@ class Interp:
                     if isinstance(v, Sym):
                         self.ctx.definitions.append(reveal_fmt03(to_int_term(v)))
                     parts.append(SStr(fmt03(to_int_term(v))) if isinstance(v, Sym) else format(int(v), '03'))
-                elif spec is None and isinstance(v, str) and p.conversion == -1:
+                elif spec is None and isinstance(v, (str, SStr)) and p.conversion == -1:
                     parts.append(v)
                 else:
                     self.dropped.opaque_fstrings += 1
